@@ -335,3 +335,5 @@ mut("d5_revert_resolution1", "C02", "defuzzifier.py", '''        x = np.atleast_
         z = ((x * y).sum(axis=1) / y.sum(axis=1)).squeeze()''', '''        x = np.atleast_2d(Op.midpoints(minimum, maximum, self.resolution))
         y = np.atleast_2d(term.membership(x))
         z = ((x * y).sum(axis=1) / y.sum(axis=1)).squeeze()''', "defect D5 (Centroid only) as found at the pinned commit")
+mut("d6_revert_constant_dtype", "C02", "term.py", "        y = np.full_like(x, fill_value=self.value, dtype=settings.float_type)\n        return y",
+    "        y = np.full_like(x, fill_value=self.value)\n        return y", "defect D6 as found at the pinned commit")
